@@ -40,7 +40,7 @@ type Real struct {
 	CPUBurn  float64 // process CPU seconds consumed by this execution when it timed out
 }
 
-var reThrown = regexp.MustCompile(`^T\d+$`)
+var reThrown = regexp.MustCompile(`^(T\d+)?$`) // thrown messages of generated programs: T<id>, or the empty message
 
 func errClass(text string) string {
 	if reThrown.MatchString(text) {
